@@ -76,7 +76,7 @@ def run_check(prop, tier, seed, replay=None):
             bad = [p for p in problems if p.startswith(t + ":")]
             ctx.obligation(t, not bad, "; ".join(bad))
         ctx.extra["axioms"] = res
-        hits = common.grep_forbidden(prop)
+        hits = common.grep_forbidden(prop, mod.MODULES)
         if hits:
             ctx.broken.append("forbidden construct in Lean sources: " + "; ".join(hits[:5]))
         if tier == "thorough" and not ctx.broken:
